@@ -38,7 +38,9 @@ CLAIMED = {
  "C07": dict(text="Theorems on the regenerated eout channel: refinement to sqrt(sum d_i^2 (s_i^2+s_{i+1}^2)/2) over in-window points; independent "
              "of the data; zero without input uncertainties; homogeneous (c>=0); monotone in each input uncertainty; "
              "exact <= coded <= 2*exact (ratio in [1,sqrt2]) against uncorrelated propagation through the trapezoid weights on every "
-             "non-decreasing grid; 2/pi scaling in F_to_G.", ref="8 (C07)",
+             "non-decreasing grid; 2/pi scaling in F_to_G. Props/C07Named joins this with C05's factorisation and the conversion refinements: for all 24 "
+             "named transforms the returned uncertainty is (dY/d core at the output abscissa) x [core uncertainty of (d core/dX at the input abscissa) x dX] "
+             "entry by entry (P_r2q_unc, P_q2r_unc) - a wrapper that hands the unconverted uncertainty to the core, drops it or converts it twice falsifies them.", ref="8 (C07)",
              tech="Lean 4 theorems (induction along the grid, nlinarith step lemma) on translator output + correspondence"),
  "C13": dict(text="Theorems: apply_cropping = closed-interval filter on x,y,dy (order preserved, membership iff in [lo,hi]); crop idempotent; "
              "fourier_transform with a window = fourier_transform of the pre-deleted data with the same window, as a full-triple "
